@@ -135,7 +135,35 @@ var (
 	}
 )
 
-type probe struct{ client, path int }
+type probe struct {
+	client, path int
+	il           bool // the request was an interleaved-mode request (origin / receive timestamp set)
+}
+
+// The clients of a history (pa.set / pd.start begin one; mp.round is stateless): the client
+// objects live on from round to round, as a reference clock's do, whenever the state the
+// op line describes for a client is the state its object of the previous round really is
+// in (otherwise a new object is pre-set through the hook, as for mp.round). What a reused
+// object remembers of its previous exchange (reference, fingerprint, timestamps) is what the
+// real code left there; only the flag "the previous response was an interleaved one" is
+// scripted, because pathServer always answers in basic mode.
+var persist struct {
+	on      bool
+	clients map[int]*client.SCIONClient
+}
+
+func persistReset(on bool) {
+	persist.on, persist.clients = on, map[int]*client.SCIONClient{}
+}
+
+// lastStale: direct-oracle observation of the most recent round — the clients that were reset
+// in the round (their filter was) and whose first request of the round nevertheless was an
+// interleaved-mode request, i.e. carried timestamps of an exchange from before the reset.
+var (
+	lastStale  []int
+	lastReused int
+)
+
 
 type sysClock struct{}
 
@@ -197,7 +225,10 @@ func pathServer(j int, conn *net.UDPConn) {
 				nth++
 			}
 		}
-		cur.log = append(cur.log, probe{cl, j})
+		var req ntp.Packet
+		reqErr := ntp.DecodePacket(&req, udpl.Payload)
+		var zero ntp.Time64
+		cur.log = append(cur.log, probe{cl, j, reqErr == nil && (req.OriginTime != zero || req.ReceiveTime != zero)})
 		pat := cur.succ[cl]
 		mu.Unlock()
 		ok := false
@@ -209,14 +240,16 @@ func pathServer(j int, conn *net.UDPConn) {
 			conn.WriteToUDPAddrPort([]byte{0}, from)
 			continue
 		}
-		var req, resp ntp.Packet
-		if err := ntp.DecodePacket(&req, udpl.Payload); err != nil {
+		var resp ntp.Packet
+		if reqErr != nil {
 			continue
 		}
 		now := ntp.Time64FromTime(time.Now())
 		resp.SetVersion(ntp.VersionMax)
 		resp.SetMode(ntp.ModeServer)
 		resp.Stratum = 1
+		// (always a basic-mode response, also to an interleaved-mode request: whether the previous
+		// response was an interleaved one is scripted per client, see runRound)
 		resp.OriginTime = req.TransmitTime
 		resp.ReceiveTime = now
 		resp.TransmitTime = now
@@ -346,6 +379,7 @@ func execRoundOnce(toks []string, deadline time.Duration) (string, bool) {
 	if err := world(); err != nil {
 		panic("world: " + err.Error())
 	}
+	persistReset(false)
 	return runRound(cs, succ, data, mkPaths(ps), deadline)
 }
 
@@ -403,6 +437,7 @@ func execPatherSet(toks []string) string {
 		panic("world: " + err.Error())
 	}
 	patherToks = ps
+	persistReset(true)
 	pather = scion.VerifC15NewPather(discard, localIA, map[addr.IA][]snet.Path{remoteIA: mkPaths(ps)})
 	return fmt.Sprintf("ok n=%d", len(ps))
 }
@@ -432,6 +467,7 @@ func execPatherRoundOnce(toks []string, deadline time.Duration) (string, bool) {
 // runRound: one real MeasureClockOffsetSCION call over the given offered paths.
 func runRound(cs, succ []string, data []byte, paths []snet.Path, deadline time.Duration) (string, bool) {
 	ps := paths
+	nReused := 0
 	clients := make([]*client.SCIONClient, len(cs))
 	filters := make([]*fakeFilter, len(cs))
 	sm := map[int]string{}
@@ -445,6 +481,15 @@ func runRound(cs, succ []string, data []byte, paths []snet.Path, deadline time.D
 			}
 		}
 		c := &client.SCIONClient{Log: discard, DSCP: uint8(i + 1), InterleavedMode: t[0] == '1'}
+		reused := false
+		if pc := persist.clients[i]; persist.on && pc != nil {
+			ref, fp, _ := client.VerifC15Prev(pc)
+			if pc.InterleavedMode == (t[0] == '1') && (ref != "") == (t[1] == '1') && fp == fpString(t[3:]) {
+				c, reused = pc, true
+				nReused++
+				client.VerifC15SetPrev(c, ref, fp, t[2] == '1')
+			}
+		}
 		f := &fakeFilter{}
 		// succ[i]: "x" every attempt is refused; "<off>" every attempt is answered; "<off>:<pattern>"
 		// attempt k is answered iff pattern[k] == '1' (last character repeats)
@@ -470,12 +515,15 @@ func runRound(cs, succ []string, data []byte, paths []snet.Path, deadline time.D
 		if t[1] == '1' {
 			ref = "verif-previous-reference"
 		}
-		client.VerifC15SetPrev(c, ref, fpString(t[3:]), t[2] == '1')
+		if !reused {
+			client.VerifC15SetPrev(c, ref, fpString(t[3:]), t[2] == '1')
+		}
 		clients[i], filters[i] = c, f
 	}
 	mu.Lock()
 	cur.succ, cur.log = sm, nil
 	mu.Unlock()
+	lastStale, lastReused = nil, nReused
 
 	laddr := udp.UDPAddr{IA: localIA, Host: &net.UDPAddr{IP: net.ParseIP(localIP).To4()}}
 	raddr := udp.UDPAddr{IA: remoteIA, Host: &net.UDPAddr{IP: net.ParseIP(remoteIP).To4(), Port: 10123}}
@@ -502,9 +550,21 @@ func runRound(cs, succ []string, data []byte, paths []snet.Path, deadline time.D
 	for i := range assign {
 		assign[i] = "-"
 	}
+	if persist.on {
+		// the objects live on, unless abandoned per-path goroutines may still be writing to them
+		persist.clients = map[int]*client.SCIONClient{}
+		if !late {
+			for i, c := range clients {
+				persist.clients[i] = c
+			}
+		}
+	}
 	for _, p := range log {
 		if p.client < 0 || p.client >= len(cs) {
 			return "err unknown-client", false
+		}
+		if probes[p.client] == 0 && p.il && filters[p.client].resets > 0 {
+			lastStale = append(lastStale, p.client)
 		}
 		probes[p.client]++
 		s := strconv.Itoa(p.path)
@@ -939,6 +999,11 @@ func judge(c *lib.Ctx, ops []string, ans string, cs []clientSpec, ps []string, s
 	f := strings.Fields(ans)
 	fail := func(sig, what string) {
 		c.Fail(sig, what, ops, map[string]any{"answer": ans})
+	}
+	c.Counters["round:client-objects-reused"] += lastReused
+	if len(lastStale) > 0 {
+		c.Fail("C15:round:reset-client-sent-interleaved", "a client that was reset in this round (its filter was) opened the round with an interleaved-mode request: it carries the timestamps of its exchange from before the reset, over the path it no longer has",
+			ops, map[string]any{"answer": ans, "clients": fmt.Sprint(lastStale)})
 	}
 	if f[0] == "panic" || len(f) < 6 || strings.HasPrefix(f[1], "other") || strings.HasPrefix(f[1], "sample") {
 		c.Count("round:" + f[0] + ":" + f[1])
